@@ -13,9 +13,11 @@
 //! clocks advance, nothing sleeps) | `(7,ms)` the wall clock is stepped by a signed amount (as an
 //! operator or NTP would; the monotonic clock is unaffected).
 //!
-//! Simulated time: the process' own `clock_gettime` is defined below and adds an adjustable offset
-//! to CLOCK_REALTIME / CLOCK_MONOTONIC (zero outside a history, so every other op sees the true
-//! clocks).  chrono's code is unchanged and reads the clock through std as always.
+//! Simulated time: the process' own `clock_gettime` is defined below.  It forwards to the kernel and,
+//! ONLY on a thread that is executing a history (thread-local flag) and only while a history runs
+//! (the offsets are reset to zero when it ends, also on a panic), adds an adjustable offset to
+//! CLOCK_REALTIME / CLOCK_MONOTONIC.  Every other thread and every other op sees the true clocks.
+//! chrono's code is unchanged and reads the clock through std as always.
 //!
 //! Before the first history the op writes a fixed table of small files under `c18z` directories (in
 //! /tmp and in the four zoneinfo directories chrono searches); gen/C18.py describes the same table to
@@ -27,6 +29,11 @@ use std::time::{Duration, Instant, SystemTime, UNIX_EPOCH};
 
 static WALL_OFF_NS: AtomicI64 = AtomicI64::new(0);
 static MONO_OFF_NS: AtomicI64 = AtomicI64::new(0);
+thread_local! {
+    /// true only on the threads that execute a history: every other thread of the process (the
+    /// main loop, its watchdog, other properties' ops) always reads the true clocks
+    static IN_HISTORY: std::cell::Cell<bool> = const { std::cell::Cell::new(false) };
+}
 
 #[repr(C)]
 pub struct Timespec {
@@ -46,7 +53,7 @@ const SYS_CLOCK_GETTIME: i64 = 113;
 #[no_mangle]
 pub unsafe extern "C" fn clock_gettime(clk: i32, ts: *mut Timespec) -> i32 {
     let r = syscall(SYS_CLOCK_GETTIME, clk as i64, ts);
-    if r == 0 && !ts.is_null() {
+    if r == 0 && !ts.is_null() && IN_HISTORY.try_with(|f| f.get()).unwrap_or(false) {
         let off = match clk {
             0 => WALL_OFF_NS.load(Ordering::SeqCst), // CLOCK_REALTIME
             1 => MONO_OFF_NS.load(Ordering::SeqCst), // CLOCK_MONOTONIC
@@ -193,6 +200,7 @@ fn rec(o: &Origin, before: (i128, i128), ans: Val) -> Val {
 /// after it.
 fn exec(steps: &[Step], mut i: usize, o: Origin, out: &mut Vec<Val>) -> usize {
     use std::os::unix::ffi::OsStrExt;
+    IN_HISTORY.with(|f| f.set(true));
     while i < steps.len() {
         let before = o.read();
         match &steps[i] {
@@ -249,6 +257,7 @@ fn history(a: &[Val]) -> Option<Val> {
     std::env::remove_var("TZ");
     let r = std::thread::scope(|s| {
         s.spawn(|| {
+            IN_HISTORY.with(|f| f.set(true));
             let o = Origin { wall: wall_abs_ns(), mono: Instant::now() };
             let mut out = Vec::new();
             let mut i = 0;
